@@ -9,7 +9,13 @@
 (* trace : runtime (minutes, 0 = unlimited), me (pilot id), events         *)
 (* events: LifetimeCheck(now, cause, term)  CancelCmd(uids, cause, term)   *)
 (*         TerminateCmd(cause, term)  Stop(cause, term)                    *)
-(*         Finalize(signal, advanced, cause)   Boot(state)                 *)
+(*         FinBegin(faults)  finalize() was entered; faults = the steps    *)
+(*            before the publication which fail in this run (environment   *)
+(*            faults such as tar exiting non-zero, helpers which raise);   *)
+(*            commands logged between FinBegin and Finalize arrived while  *)
+(*            those steps ran                                              *)
+(*         Finalize(signal, advanced, npub, raised, cause)   Boot(state)   *)
+(*            npub = number of final pilot states finalize() published     *)
 (*   cause / term are the agent's _final_cause / _term after the call      *)
 (* The monitor is total: failing clauses go to errs.                       *)
 (***************************************************************************)
@@ -18,9 +24,10 @@ EXTENDS AgentLifeOps, TLC, Json, IOUtils
 Batch  == JsonDeserialize(IOEnv.TRACE_FILE)
 Traces == Batch.traces
 
-VARIABLES tid, l, first, cause, term, isfin, signal, errs, fin
+VARIABLES tid, l, first, cause, term, isfin, signal, errs, fin,
+          first0    \* the first decisive event when finalize() was entered ("open": not entered)
 
-vars == <<tid, l, first, cause, term, isfin, signal, errs, fin>>
+vars == <<tid, l, first, cause, term, isfin, signal, errs, fin, first0>>
 
 T  == Traces[tid]
 Ev == T.events
@@ -30,12 +37,17 @@ E(cond, name) == IF cond THEN {} ELSE {name}
 Init ==
   /\ tid \in 1 .. Len(Traces)
   /\ l = 1 /\ first = "none" /\ cause = "none" /\ term = FALSE
-  /\ isfin = FALSE /\ signal = "" /\ errs = {} /\ fin = FALSE
+  /\ isfin = FALSE /\ signal = "" /\ errs = {} /\ fin = FALSE /\ first0 = "open"
+
+\* the final states which tell why the pilot ended: a decisive event which arrives
+\* while finalize() already runs its steps may or may not be taken into account
+Right == Allowed(first) \cup (IF first0 = "open" THEN {} ELSE Allowed(first0))
 
 Step ==
   /\ ~fin /\ l <= Len(Ev)
   /\ LET e == Ev[l] IN
      /\ l' = l + 1 /\ fin' = FALSE
+     /\ first0' = IF e.ev = "FinBegin" THEN first ELSE first0
      /\ CASE e.ev = "LifetimeCheck" ->
                /\ cause' = e.cause /\ term' = e.term
                /\ IF Expired(T.runtime, e.now)
@@ -59,12 +71,19 @@ Step ==
                /\ cause' = e.cause /\ term' = e.term
                /\ first' = First(first, "stop") /\ errs' = errs
                /\ UNCHANGED <<isfin, signal>>
+          [] e.ev = "FinBegin" ->
+               /\ errs' = errs \cup E(~isfin, "X.FinalizedTwice")
+               /\ UNCHANGED <<first, cause, term, isfin, signal>>
           [] e.ev = "Finalize" ->
+               \* whichever steps failed (FinBegin.faults): exactly one final state,
+               \* the right one for the first decisive event seen until now, and
+               \* the signal file says the same
                /\ isfin' = TRUE /\ signal' = e.signal
                /\ errs' = errs
                     \cup E(~isfin, "X.FinalizedTwice")
-                    \cup E(e.advanced \in Allowed(first), "C14.RightReason")
-                    \cup E(e.signal = e.advanced, "C14.SignalMatchesState")
+                    \cup E(e.npub = 1, "C14.OneFinalState")
+                    \cup E(e.npub = 0 \/ e.advanced \in Right, "C14.RightReason")
+                    \cup E((e.npub = 0 /\ e.signal = "") \/ e.signal = e.advanced, "C14.SignalMatchesState")
                /\ UNCHANGED <<first, cause, term>>
           [] e.ev = "Boot" ->
                \* the bootstrapper reports the content of the signal file; without
@@ -72,7 +91,7 @@ Step ==
                /\ errs' = errs
                     \cup (IF e.state = "skipped" THEN {}
                           ELSE E(e.state = BootState(signal), "C14.BootstrapState")
-                               \cup E(e.state \in Allowed(first) \/ ~isfin, "C14.RightReason")
+                               \cup E(e.state \in Right \/ ~isfin, "C14.RightReason")
                                \cup E(isfin \/ e.state = "FAILED", "C14.BootstrapFallback"))
                /\ UNCHANGED <<first, cause, term, isfin, signal>>
           [] OTHER ->
@@ -84,7 +103,7 @@ Finish ==
   /\ ~fin /\ l > Len(Ev)
   /\ fin' = TRUE
   /\ PrintT(<<"RESULT", T.tid, errs>>)
-  /\ UNCHANGED <<tid, l, first, cause, term, isfin, signal, errs>>
+  /\ UNCHANGED <<tid, l, first, cause, term, isfin, signal, errs, first0>>
 
 Next == Step \/ Finish
 Spec == Init /\ [][Next]_vars
